@@ -57,6 +57,12 @@ type Case struct {
 	// StdoutFull: standard output is /dev/full - every write to it fails (the downstream filestore is full).
 	// The pass-through is lost, of course; the record must be complete all the same.
 	StdoutFull bool `json:"stdout_filestore_full"`
+	// Restart: today's record file already holds that many bytes from an earlier run of the same day; the
+	// record after this run is the old content followed by the input.
+	Restart int `json:"record_bytes_from_earlier_run_today"`
+	// Signal: a signal that programs normally ignore (window size changed, continue, child status) is sent
+	// to the program after the first chunk; it is not a request to stop.
+	Signal string `json:"harmless_signal,omitempty"`
 }
 
 // tzif builds a minimal TZif (version 1) file for a fixed offset from UTC.
@@ -159,6 +165,14 @@ func check(c Case, o *stats.Obs) error {
 			os.Symlink("/dev/full", filepath.Join(logDir, fmt.Sprintf("rtcmlogger.%04d-%02d-%02d.rtcm", d.Year(), int(d.Month()), d.Day())))
 		}
 	}
+	var earlier []byte
+	if c.Restart > 0 && !c.RecordFull && c.MidnightIn == 0 && c.LocalSod == 0 {
+		os.MkdirAll(logDir, 0o755)
+		earlier = bytes.Repeat([]byte{0xd3, 0x00, 0x01, 0x7f}, c.Restart/4+1)[:c.Restart]
+		now := time.Now()
+		os.WriteFile(filepath.Join(logDir, fmt.Sprintf("rtcmlogger.%04d-%02d-%02d.rtcm", now.Year(), int(now.Month()), now.Day())), earlier, 0o644)
+		o.Class("restart-same-day")
+	}
 	cmd := exec.Command(bin, "-c", cfgPath)
 	cmd.Dir = dir
 	cmd.Env = append(os.Environ(), fmt.Sprintf("GOMAXPROCS=%d", c.Procs))
@@ -250,6 +264,13 @@ func check(c Case, o *stats.Obs) error {
 				if c.MidnightIn > 0 {
 					time.Sleep(900 * time.Millisecond)
 				}
+				if c.Signal != "" && k == 1 && cmd.Process != nil {
+					sig := map[string]syscall.Signal{"SIGWINCH": syscall.SIGWINCH, "SIGCONT": syscall.SIGCONT, "SIGCHLD": syscall.SIGCHLD, "SIGURG": syscall.SIGURG}[c.Signal]
+					if sig != 0 {
+						cmd.Process.Signal(sig)
+						time.Sleep(2 * time.Millisecond)
+					}
+				}
 				if c.QuietMs > 0 && k == c.QuietAfter {
 					time.Sleep(time.Duration(c.QuietMs) * time.Millisecond)
 				}
@@ -313,9 +334,9 @@ func check(c Case, o *stats.Obs) error {
 		return nil
 	}
 	rec := appsup.ReadLogs(logDir, "rtcmlogger.", ".rtcm")
-	if !bytes.Equal(rec, input) {
+	if wantRec := append(append([]byte{}, earlier...), input...); !bytes.Equal(rec, wantRec) {
 		o.Key = "record-file"
-		return fmt.Errorf("record file after exit differs from the input: %s (len %d, content kind %d, pipe=%v, chunks %v, GOMAXPROCS=%d)", appsup.Diff(rec, input), c.Len, c.Content, c.Pipe, c.Chunks, c.Procs)
+		return fmt.Errorf("record file after exit differs from the input (after %d bytes of an earlier run today): %s (len %d, content kind %d, pipe=%v, chunks %v, GOMAXPROCS=%d)", len(earlier), appsup.Diff(rec, wantRec), c.Len, c.Content, c.Pipe, c.Chunks, c.Procs)
 	}
 	o.NonTrivial = len(input) > 0
 	if len(input) > 8096 {
@@ -345,6 +366,9 @@ func check(c Case, o *stats.Obs) error {
 	}
 	if c.StdoutFull {
 		o.Class("stdout-filestore-full")
+	}
+	if c.Signal != "" {
+		o.Class("harmless-signal-during-the-run")
 	}
 	if c.SameDir && c.LogEvents {
 		o.Class("event-log-in-record-directory")
@@ -389,6 +413,18 @@ func gen1(t *rapid.T) Case {
 	c.RecordFull = rapid.IntRange(0, 9).Draw(t, "recordFull") == 5
 	c.SameDir = c.LogEvents && rapid.Bool().Draw(t, "sameDir")
 	c.StdoutFull = !c.Live && !c.RecordFull && rapid.IntRange(0, 7).Draw(t, "stdoutFull") == 6
+	if rapid.IntRange(0, 4).Draw(t, "restart") == 2 {
+		c.Restart = rapid.SampledFrom([]int{1, 500, 8096, 20000}).Draw(t, "earlierBytes")
+	}
+	if c.Pipe && rapid.IntRange(0, 4).Draw(t, "signal") == 3 {
+		c.Signal = rapid.SampledFrom([]string{"SIGWINCH", "SIGCONT", "SIGCHLD", "SIGURG"}).Draw(t, "harmlessSignal")
+		if c.Len < 30 {
+			c.Len = 30 + c.Len*50
+		}
+		if len(c.Chunks) == 0 || c.Chunks[0] >= c.Len/2 {
+			c.Chunks = []int{c.Len/3 + 1}
+		}
+	}
 	if rapid.IntRange(0, 3).Draw(t, "localTime") == 1 {
 		c.LocalSod = rapid.SampledFrom([]int{40, 1200, 7 * 3600, 43200, 86000}).Draw(t, "localSod")
 	}
